@@ -19,7 +19,7 @@ use chumsky::prelude::*;
 use chumsky::primitive::select;
 use chumsky::recursive::{Direct, Indirect};
 
-use crate::ast::{CKind, PForm, POp, G, IT};
+use crate::ast::{CKind, Cop, PForm, POp, G, IT};
 use crate::errs::HErr;
 use crate::input::{tree_input, HInput, HSpan, HState, TreeIn, TT};
 use crate::val::{ap1, apmw, holds, val_count, Fn1, HTok, Mw, Pos, Pred, Val};
@@ -178,15 +178,28 @@ where
     }
 }
 
+/// Every other configured `just` is configured through a REFERENCE to the parser (`(&just(..)).configure(..)`: the blanket
+/// `ConfigParser for &T`, which goes through `Mode::invoke_cfg`); the referent is leaked (a few bytes per case).
+static CFG_BY_REF: std::sync::atomic::AtomicUsize = std::sync::atomic::AtomicUsize::new(0);
+fn cfg_by_ref() -> bool {
+    CFG_BY_REF.fetch_add(1, std::sync::atomic::Ordering::Relaxed) % 2 == 1
+}
+
 // the sequence type must be the same for the built-in and the configured sequence
 pub fn just_cfg_string<'a, I, E>(ts: &[u32]) -> P<'a, I, E>
 where
     I: HInput<'a, Token = char>,
     E: HErr<'a, I>,
 {
-    bx(just::<String, I, Ex<E>>(string_of(ts))
-        .configure(|cfg, ctx: &Val| cfg.seq(char::ctx_seq(ctx).into_iter().collect::<String>()))
-        .map(|s: String| Val::toks(s.chars())))
+    let j = just::<String, I, Ex<E>>(string_of(ts));
+    if cfg_by_ref() {
+        let r: &'a _ = Box::leak(Box::new(j));
+        bx(r.configure(|cfg, ctx: &Val| cfg.seq(char::ctx_seq(ctx).into_iter().collect::<String>()))
+            .map(|s: String| Val::toks(s.chars())))
+    } else {
+        bx(j.configure(|cfg, ctx: &Val| cfg.seq(char::ctx_seq(ctx).into_iter().collect::<String>()))
+            .map(|s: String| Val::toks(s.chars())))
+    }
 }
 
 pub fn just_cfg_vec<'a, I, E>(ts: &[u32]) -> P<'a, I, E>
@@ -194,9 +207,13 @@ where
     I: HInput<'a>,
     E: HErr<'a, I>,
 {
-    bx(just::<Vec<I::Token>, I, Ex<E>>(I::Token::seq(ts))
-        .configure(|cfg, ctx: &Val| cfg.seq(I::Token::ctx_seq(ctx)))
-        .map(|v: Vec<I::Token>| Val::toks(v)))
+    let j = just::<Vec<I::Token>, I, Ex<E>>(I::Token::seq(ts));
+    if cfg_by_ref() {
+        let r: &'a _ = Box::leak(Box::new(j));
+        bx(r.configure(|cfg, ctx: &Val| cfg.seq(I::Token::ctx_seq(ctx))).map(|v: Vec<I::Token>| Val::toks(v)))
+    } else {
+        bx(j.configure(|cfg, ctx: &Val| cfg.seq(I::Token::ctx_seq(ctx))).map(|v: Vec<I::Token>| Val::toks(v)))
+    }
 }
 
 /// `(Skip n)`: a custom parser that calls `InputRef::skip` n times.
@@ -260,6 +277,70 @@ pub fn val_items(v: Val) -> Vec<Val> {
         Val::Unit => vec![],
         v => vec![v],
     }
+}
+
+/// `(Prog ops k)`: a custom parser over `InputRef`'s public API (next / next_ref / peek / skip / save / rewind / span_since / state)
+macro_rules! prog_body {
+    ($cv:ident, $ops:ident, $k:ident, $exp:ident, $inp:ident, $next_ref:expr) => {{
+        let start = $inp.cursor();
+        let mut stack = Vec::new();
+        let mut out: Vec<Val> = Vec::new();
+        for (i, op) in $ops.iter().enumerate() {
+            match op {
+                Cop::Next => match $inp.next() {
+                    Some(t) => out.push(Val::tok(t)),
+                    None => out.push(Val::Unit),
+                },
+                Cop::NextRef => match $next_ref {
+                    Some(t) => out.push(Val::tok(t)),
+                    None => out.push(Val::Unit),
+                },
+                Cop::Peek => match $inp.peek() {
+                    Some(t) => out.push(Val::tok(t)),
+                    None => out.push(Val::Unit),
+                },
+                Cop::Skip => $inp.skip(),
+                Cop::Save => stack.push($inp.save()),
+                Cop::Rewind => {
+                    if let Some(c) = stack.pop() {
+                        $inp.rewind(c)
+                    }
+                }
+                Cop::Expect(_) => match $inp.next() {
+                    Some(u) if Some(&u) == $exp[i].as_ref() => {}
+                    _ => return Err(E::custom($k, $inp.span_since(&start))),
+                },
+                Cop::Span => out.push(span_val::<I>(&$cv, $inp.span_since(&start))),
+                Cop::State => out.push(Val::Nat($inp.state().h as usize)),
+            }
+        }
+        Ok(Val::List(out))
+    }};
+}
+
+fn prog_expected<T: HTok>(ops: &[Cop]) -> Vec<Option<T>> {
+    ops.iter().map(|o| match o { Cop::Expect(t) => T::seq(&[*t]).into_iter().next(), _ => None }).collect()
+}
+
+pub fn v_prog<'a, I, E>(cv: &I::Conv, ops: Vec<Cop>, k: usize) -> P<'a, I, E>
+where
+    I: HInput<'a> + ValueInput<'a>,
+    E: HErr<'a, I>,
+{
+    let cv = cv.clone();
+    let exp = prog_expected::<I::Token>(&ops);
+    bx(custom(move |inp: &mut InputRef<'a, '_, I, Ex<E>>| prog_body!(cv, ops, k, exp, inp, inp.next())))
+}
+
+/// the same with `CNextRef` going through `InputRef::next_ref` (`BorrowInput` kinds)
+pub fn v_prog_ref<'a, I, E>(cv: &I::Conv, ops: Vec<Cop>, k: usize) -> P<'a, I, E>
+where
+    I: HInput<'a> + ValueInput<'a> + chumsky::input::BorrowInput<'a>,
+    E: HErr<'a, I>,
+{
+    let cv = cv.clone();
+    let exp = prog_expected::<I::Token>(&ops);
+    bx(custom(move |inp: &mut InputRef<'a, '_, I, Ex<E>>| prog_body!(cv, ops, k, exp, inp, inp.next_ref().cloned())))
 }
 
 /// `(Lazy a)`: `a.lazy()`
@@ -636,6 +717,7 @@ impl<'a, I: HInput<'a>, E: HErr<'a, I>> Builder<'a, I, E> {
             G::Skip(n) => I::skip(*n)?,
             G::Lazy(a) => I::lazy(self.g(a)?)?,
             G::Padded(ws, a) => I::padded(ws, self.g(a)?)?,
+            G::Prog(ops, k) => I::prog(&self.cv, ops.clone(), *k)?,
             G::NestedDelims(s, e, others) => I::nested_delims(&self.cv, *s, *e, others)?,
             G::ExtWrap(a) => bx(chumsky::extension::v1::Ext(ExtW(self.g(a)?))),
             G::Pratt(form, atom, ops) => {
@@ -846,6 +928,32 @@ impl<'a, I: HInput<'a>, E: HErr<'a, I>> Builder<'a, I, E> {
             IT::IOrNot(a) if !mapped => self.iter2(self.g(a)?.or_not(), &ads, fin),
             IT::IOrNot(_) => unsupported("IMap/IMapWith over IOrNot does not type-check in chumsky"),
             IT::IIntoIter(a) if !mapped => self.iter2(self.g(a)?.map(val_items).into_iter(), &ads, fin),
+            // `i.then(j)` as an iterable: `Parser::then` wants both halves to be parsers as well, which the bases are
+            IT::IThen(i, j) if !mapped => {
+                macro_rules! second {
+                    ($x:expr) => {
+                        match &**j {
+                            IT::IRep(b, lo, hi) => self.iter2(Parser::then($x, self.rep(self.g(b)?, *lo, *hi)), &ads, fin),
+                            IT::ISep(b, sep, lo, hi, lead, trail) => self.iter2(
+                                Parser::then($x, self.sep(self.g(b)?, self.g(sep)?, *lo, *hi, *lead, *trail)),
+                                &ads,
+                                fin,
+                            ),
+                            IT::IOrNot(b) => self.iter2(Parser::then($x, self.g(b)?.or_not()), &ads, fin),
+                            _ => unsupported("IThen: the second iterable must be IRep, ISep or IOrNot"),
+                        }
+                    };
+                }
+                match &**i {
+                    IT::IRep(a, lo, hi) => second!(self.rep(self.g(a)?, *lo, *hi)),
+                    IT::ISep(a, sep, lo, hi, lead, trail) => {
+                        second!(self.sep(self.g(a)?, self.g(sep)?, *lo, *hi, *lead, *trail))
+                    }
+                    IT::IOrNot(a) => second!(self.g(a)?.or_not()),
+                    _ => unsupported("IThen: the first iterable must be IRep, ISep or IOrNot"),
+                }
+            }
+            IT::IThen(..) => unsupported("IMap/IMapWith over IThen"),
             IT::IIntoIter(_) => unsupported("IMap/IMapWith over IIntoIter: items are not ()"),
 
             // items are `()`: `Parser::map` / `Parser::map_with` apply
